@@ -19,7 +19,7 @@ theorem rowIndep_MLP (θ : MLP R) (idx : List Nat) (X : T3 R) :
   rowwise_of_map (o.mlp_eq θ) idx X
 
 example : intOps.mlp Toy.mlp (selectRows [2, 0, 0] Toy.x3) = selectRows [2, 0, 0] (intOps.mlp Toy.mlp Toy.x3) ∧
-    intOps.mlp Toy.mlp Toy.x3 = [[2, 1], [4, -1], [1, 0]] := by decide
+    intOps.mlp Toy.mlp Toy.x3 = [[11, -10], [13, -12], [7, -6]] := by decide
 
 theorem rowIndep_ResNet (θ : ResNet R) (idx : List Nat) (X : T3 R) :
     o.resnet θ (selectRows idx X) = selectRows idx (o.resnet θ X) :=
@@ -42,6 +42,7 @@ theorem rowIndep_TabTransformer (θ : TabTransformer R) (idx : List Nat) (Xc Xn 
     o.tabTransformer θ (selectRows idx Xc) (selectRows idx Xn) = selectRows idx (o.tabTransformer θ Xc Xn) :=
   o.tabTransformer_rowwise θ idx Xc Xn h
 
+set_option maxRecDepth 8000 in
 example : (Toy.tabTr.hasCat = true → Toy.tabTr.hasNum = true → Toy.xc.length = Toy.xn.length) ∧
     intOps.tabTransformer Toy.tabTr Toy.xc Toy.xn = [[8], [6], [5]] ∧
     intOps.tabTransformer Toy.tabTr (selectRows [2, 1] Toy.xc) (selectRows [2, 1] Toy.xn) = [[5], [6]] := by decide
@@ -161,7 +162,10 @@ theorem no_div_by_zero (exp tanh sqrt erf : F → F) (c1 c2 c3 : F) (hexp : ∀ 
 end Field
 
 /-- non-vacuity: the rationals with the (positive) function `x ↦ 1 + x²` in the role of `exp` -/
-example : ∀ x : ℚ, 0 < (fun x : ℚ => 1 + x * x) x := fun x => by positivity
+example : ∀ x : ℚ, 0 < (fun x : ℚ => 1 + x * x) x := fun x => by
+  show (0 : ℚ) < 1 + x * x
+  have := mul_self_nonneg x
+  linarith
 
 /-- The stype-wise encoder's concatenation drops no column: for equally long per-stype outputs, row `b`
     of `torch.cat(xs, dim=1)` is the concatenation of the rows `b` of all of them (so it has the sum of
